@@ -1,129 +1,139 @@
-import MlModel.Lemmas.QueueLiveJ
+import MlModel.Lemmas.QueueLiveProgs
 /-!
-# Liveness of the IteratorQueue LTS — the no-lost-wake-up invariant, producer side, one step
-(`oSF`: another producer has `sawFull`; `oEA`, `oDC`: another thread is a debtor / committed.)
+# Liveness of the IteratorQueue LTS — what a fault-free run computes, one step at a time
+
+Fault-free: no `Item.fail` in any source, no stopper, no timeout.  Then no exception is ever
+recorded (`clean`), every producer puts *all* its source values and stops with its own return
+value, and a consumer's end-of-stream exception is `StopIteration(*returned)`.
 -/
 namespace MlModel.Queue
 set_option linter.unusedSimpArgs false
 
-def K2L (s : Shared) (t : Thread) (oSF oEA : Prop) : Prop :=
-  (s.enqWait ≠ [] ∨ sawFull t = true ∨ oSF) → s.enqueueDone = true → (debtEAll t = true ∨ oEA)
+def noFail (l : List Item) : Bool := l.all (fun i => i != .fail)
 
-def K2Step (s : Shared) (t : Thread) (tid : Tid) (alt : Bool) : Prop :=
-  ∀ lbl s' t', stepThread s t tid alt = some (lbl, s', t') → ∀ (oSF oEA : Prop),
-    (t.pc = .tAcq → t.reraise.isSome = true → s.exc.isSome = true) →
-    (t.pc = .mRel → s.stopRequested = true) →
-    (holds .enq t.pc = true → ¬oSF) →
-    (t.pc = .sAcq → s'.enqueueDone = true → s.enqueueDone = true) →
-    K2L s t oSF oEA → K2L s' t' oSF oEA
+def Prog.noFail : Prog → Bool
+  | .producer src _ => Queue.noFail src
+  | _ => true
 
-set_option hygiene false in
-macro "k2_group" : tactic => `(tactic| (
-  intro lbl s' t' h oSF oEA hx1 hx2 hm hS hj
-  unfold K2L at hj ⊢
+/-- the return value of a producer's source iterator -/
+def progRet : Prog → List Nat
+  | .producer _ r => [r]
+  | _ => []
+
+/-- `final` as a function of the two fields it reads (kept folded in the step proofs) -/
+def finalOf (exc : Option ErrKind) (returned : List Nat) : Raise :=
+  match exc with
+  | some e => .err e
+  | none => .stop returned
+
+theorem final_eq (s : Shared) : s.final = finalOf s.exc s.returned := rfl
+
+/-- thread-local facts of a fault-free run -/
+structure CT (t : Thread) : Prop where
+  src : noFail t.src = true
+  prog : t.prog.noFail = true
+  kind : t.prog.kind ≠ .stopper
+  pc : t.pc ≠ .pRaiseT
+  stop : stopped t = true → t.rets = progRet t.prog
+  stop2 : stopped t = true → t.src = []
+  res : (t.pc = .done ∨ t.pc = .bRaise) → t.result = []
+
+def CleanStep (s : Shared) (t : Thread) (tid : Tid) (alt : Bool) : Prop :=
+  ∀ lbl s' t', stepThread s t tid alt = some (lbl, s', t') → TOK t →
+    s.exc = none → s.stopRequested = false → s.timeout = false →
+    ((match t.pc with | .nRelErr _ => true | _ => false) = true → t.x.isErr = true → s.exc.isSome = true) →
+    CT t → s'.exc = none ∧ s'.stopRequested = false ∧ CT t'
+
+
+theorem dbg_a {s t tid alt} {c : Caller} (hpc : t.pc = .nNaOk c) : CleanStep s t tid alt := by
+  intro lbl s' t' h htok he hsr hto hx3 hct
+  have hk := htok.kind; have hr := htok.res
+  obtain ⟨c1, c2, c3, c4, c5, c7, c6⟩ := hct
+  clear htok
+  clear hto
   unfold stepThread at h
-  cases hpc : t.pc <;> (try (simp only [hpc, Pc.group] at hg; omega)) <;>
-    simp only [hpc] at h hx1 hx2 hm hS hj <;>
+  simp only [hpc] at h hk hx3 c4 c6 <;>
     (try simp only [acquire, release, notify, waitPark, waitWake, goto, enqLoop, putLoop, batchLoop,
       afterRaise, afterValue] at h) <;>
     (repeat' split at h) <;>
     (try simp only [Option.some.injEq, Prod.mk.injEq, reduceCtorEq] at h) <;>
     (try (obtain ⟨-, rfl, rfl⟩ := h)) <;>
-    first
-    | (simp_all [Shared.setOwner, Shared.owner, sawFull, debtEAll, holds, enqueueDone_eq, doneOf_isSome]; done)
-    | (cases hew : s.enqWait <;>
-        simp_all [Shared.setOwner, Shared.owner, sawFull, debtEAll, holds, enqueueDone_eq, doneOf_isSome] <;>
-        grind)))
+    (refine ⟨?_, ?_, ⟨?_, ?_, ?_, ?_, ?_, ?_, ?_⟩⟩) <;>
+    (try (have hen : t.pc = Pc.eNext := hpc; clear hen; cases hprog : t.prog)) <;>
+    simp_all [Shared.setOwner, Shared.owner, pcKind, Prog.kind, noFail, Prog.noFail, progRet, stopped] <;>
+    (try assumption)
 
-theorem k2_g0 {s t tid alt} (hg : t.pc.group = 0) : K2Step s t tid alt := by k2_group
-theorem k2_g1 {s t tid alt} (hg : t.pc.group = 1) : K2Step s t tid alt := by k2_group
-theorem k2_g2 {s t tid alt} (hg : t.pc.group = 2) : K2Step s t tid alt := by k2_group
-theorem k2_g3 {s t tid alt} (hg : t.pc.group = 3) : K2Step s t tid alt := by k2_group
-theorem k2_g4 {s t tid alt} (hg : t.pc.group = 4) : K2Step s t tid alt := by k2_group
-theorem k2_g5 {s t tid alt} (hg : t.pc.group = 5) : K2Step s t tid alt := by k2_group
-theorem k2_g6 {s t tid alt} (hg : t.pc.group = 6) : K2Step s t tid alt := by k2_group
-theorem k2_g7 {s t tid alt} (hg : t.pc.group = 7) : K2Step s t tid alt := by k2_group
-
-theorem stepThread_k2 {s t tid alt} : K2Step s t tid alt := by
-  have h := Pc.group_lt t.pc
-  match hg : t.pc.group with
-  | 0 => exact k2_g0 hg | 1 => exact k2_g1 hg | 2 => exact k2_g2 hg | 3 => exact k2_g3 hg
-  | 4 => exact k2_g4 hg | 5 => exact k2_g5 hg | 6 => exact k2_g6 hg | 7 => exact k2_g7 hg
-  | n + 8 => omega
-
-def K1L (s : Shared) (t : Thread) (oSF oDC : Prop) : Prop :=
-  (s.enqWait ≠ [] ∨ sawFull t = true ∨ oSF) →
-    (s.q ≠ [] ∨ s.enqNotified ≠ [] ∨ debtE t = true ∨ commitP t = true ∨ oDC ∨ s.enqueueDone = true)
-
-def K1Step (s : Shared) (t : Thread) (tid : Tid) (alt : Bool) : Prop :=
-  ∀ lbl s' t', stepThread s t tid alt = some (lbl, s', t') → ∀ (oSF oDC : Prop),
-    s.timeout = false →
-    ((match t.pc with | .nRelErr _ => true | _ => false) = true → t.x.isErr = true →
-      s.exc.isSome = true ∨ s.timeout = true) →
-    (holds .enq t.pc = true → ¬oSF) →
-    (s.enqueueDone = true → s'.enqueueDone = true) →
-    K1L s t oSF oDC → K1L s' t' oSF oDC
-
-
-theorem dbg_tR2_a {s t tid alt} {c : Caller} (hpc : t.pc = .tR2) : K1Step s t tid alt := by
-  intro lbl s' t' h oSF oDC hto hx3 hm hmono hj
-  unfold K1L at hj ⊢
+theorem dbg_b {s t tid alt} {c : Caller} (hpc : t.pc = .nNaOk c) : CleanStep s t tid alt := by
+  intro lbl s' t' h htok he hsr hto hx3 hct
+  have hk := htok.kind; have hr := htok.res
+  obtain ⟨c1, c2, c3, c4, c5, c7, c6⟩ := hct
+  clear htok
+  clear he
   unfold stepThread at h
-  simp only [hpc] at h hx3 hm hj <;>
+  simp only [hpc] at h hk hx3 c4 c6 <;>
     (try simp only [acquire, release, notify, waitPark, waitWake, goto, enqLoop, putLoop, batchLoop,
       afterRaise, afterValue] at h) <;>
     (repeat' split at h) <;>
     (try simp only [Option.some.injEq, Prod.mk.injEq, reduceCtorEq] at h) <;>
     (try (obtain ⟨-, rfl, rfl⟩ := h)) <;>
-    (clear hto hx3; simp_all [Shared.setOwner, Shared.owner, sawFull, debtE, commitP, holds, enqueueDone_eq, doneOf_isSome, Shared.full])
+    (refine ⟨?_, ?_, ⟨?_, ?_, ?_, ?_, ?_, ?_, ?_⟩⟩) <;>
+    (try (have hen : t.pc = Pc.eNext := hpc; clear hen; cases hprog : t.prog)) <;>
+    simp_all [Shared.setOwner, Shared.owner, pcKind, Prog.kind, noFail, Prog.noFail, progRet, stopped] <;>
+    (try assumption)
 
-theorem dbg_tR2_b {s t tid alt} {c : Caller} (hpc : t.pc = .tR2) : K1Step s t tid alt := by
-  intro lbl s' t' h oSF oDC hto hx3 hm hmono hj
-  unfold K1L at hj ⊢
+theorem dbg_c {s t tid alt} {c : Caller} (hpc : t.pc = .nNaOk c) : CleanStep s t tid alt := by
+  intro lbl s' t' h htok he hsr hto hx3 hct
+  have hk := htok.kind; have hr := htok.res
+  obtain ⟨c1, c2, c3, c4, c5, c7, c6⟩ := hct
+  clear htok
+  clear hsr
   unfold stepThread at h
-  simp only [hpc] at h hx3 hm hj <;>
+  simp only [hpc] at h hk hx3 c4 c6 <;>
     (try simp only [acquire, release, notify, waitPark, waitWake, goto, enqLoop, putLoop, batchLoop,
       afterRaise, afterValue] at h) <;>
     (repeat' split at h) <;>
     (try simp only [Option.some.injEq, Prod.mk.injEq, reduceCtorEq] at h) <;>
     (try (obtain ⟨-, rfl, rfl⟩ := h)) <;>
-    (simp_all [Shared.setOwner, Shared.owner, sawFull, debtE, commitP, holds, enqueueDone_eq, doneOf_isSome])
+    (refine ⟨?_, ?_, ⟨?_, ?_, ?_, ?_, ?_, ?_, ?_⟩⟩) <;>
+    (try (have hen : t.pc = Pc.eNext := hpc; clear hen; cases hprog : t.prog)) <;>
+    simp_all [Shared.setOwner, Shared.owner, pcKind, Prog.kind, noFail, Prog.noFail, progRet, stopped] <;>
+    (try assumption)
 
-theorem dbg_tR2_c {s t tid alt} {c : Caller} (hpc : t.pc = .tR2) : K1Step s t tid alt := by
-  intro lbl s' t' h oSF oDC hto hx3 hm hmono hj
-  unfold K1L at hj ⊢
+theorem dbg_d {s t tid alt} {c : Caller} (hpc : t.pc = .nNaOk c) : CleanStep s t tid alt := by
+  intro lbl s' t' h htok he hsr hto hx3 hct
+  have hk := htok.kind; have hr := htok.res
+  obtain ⟨c1, c2, c3, c4, c5, c7, c6⟩ := hct
+  clear htok
+  clear hto he hsr
   unfold stepThread at h
-  simp only [hpc] at h hx3 hm hj <;>
+  simp only [hpc] at h hk hx3 c4 c6 <;>
     (try simp only [acquire, release, notify, waitPark, waitWake, goto, enqLoop, putLoop, batchLoop,
       afterRaise, afterValue] at h) <;>
     (repeat' split at h) <;>
     (try simp only [Option.some.injEq, Prod.mk.injEq, reduceCtorEq] at h) <;>
     (try (obtain ⟨-, rfl, rfl⟩ := h)) <;>
-    (clear hmono; simp_all [Shared.setOwner, Shared.owner, sawFull, debtE, commitP, holds, enqueueDone_eq, doneOf_isSome, Shared.full])
+    (refine ⟨?_, ?_, ⟨?_, ?_, ?_, ?_, ?_, ?_, ?_⟩⟩) <;>
+    (try (have hen : t.pc = Pc.eNext := hpc; clear hen; cases hprog : t.prog)) <;>
+    simp_all [Shared.setOwner, Shared.owner, pcKind, Prog.kind, noFail, Prog.noFail, progRet, stopped] <;>
+    (try assumption)
 
-theorem dbg_tR2_d {s t tid alt} {c : Caller} (hpc : t.pc = .tR2) : K1Step s t tid alt := by
-  intro lbl s' t' h oSF oDC hto hx3 hm hmono hj
-  unfold K1L at hj ⊢
+theorem dbg_e {s t tid alt} {c : Caller} (hpc : t.pc = .nNaOk c) : CleanStep s t tid alt := by
+  intro lbl s' t' h htok he hsr hto hx3 hct
+  have hk := htok.kind; have hr := htok.res
+  obtain ⟨c1, c2, c3, c4, c5, c7, c6⟩ := hct
+  clear htok
+  clear hx3
   unfold stepThread at h
-  simp only [hpc] at h hx3 hm hj <;>
+  simp only [hpc] at h hk hx3 c4 c6 <;>
     (try simp only [acquire, release, notify, waitPark, waitWake, goto, enqLoop, putLoop, batchLoop,
       afterRaise, afterValue] at h) <;>
     (repeat' split at h) <;>
     (try simp only [Option.some.injEq, Prod.mk.injEq, reduceCtorEq] at h) <;>
     (try (obtain ⟨-, rfl, rfl⟩ := h)) <;>
-    (clear hx3; simp_all [Shared.setOwner, Shared.owner, sawFull, debtE, commitP, holds, enqueueDone_eq, doneOf_isSome, Shared.full])
-
-theorem dbg_tR2_e {s t tid alt} {c : Caller} (hpc : t.pc = .tR2) : K1Step s t tid alt := by
-  intro lbl s' t' h oSF oDC hto hx3 hm hmono hj
-  unfold K1L at hj ⊢
-  unfold stepThread at h
-  simp only [hpc] at h hx3 hm hj <;>
-    (try simp only [acquire, release, notify, waitPark, waitWake, goto, enqLoop, putLoop, batchLoop,
-      afterRaise, afterValue] at h) <;>
-    (repeat' split at h) <;>
-    (try simp only [Option.some.injEq, Prod.mk.injEq, reduceCtorEq] at h) <;>
-    (try (obtain ⟨-, rfl, rfl⟩ := h)) <;>
-    (clear hto; simp_all [Shared.setOwner, Shared.owner, sawFull, debtE, commitP, holds, enqueueDone_eq, doneOf_isSome, Shared.full])
+    (refine ⟨?_, ?_, ⟨?_, ?_, ?_, ?_, ?_, ?_, ?_⟩⟩) <;>
+    (try (have hen : t.pc = Pc.eNext := hpc; clear hen; cases hprog : t.prog)) <;>
+    simp_all [Shared.setOwner, Shared.owner, pcKind, Prog.kind, noFail, Prog.noFail, progRet, stopped] <;>
+    (try assumption)
 
 
 end MlModel.Queue
